@@ -293,6 +293,15 @@ func registerIntrinsics(e *Engine) {
 		return nil
 	})
 
+	// ----- time.Now: an arbitrary instant (wall clock reading without monotonic part) -----
+	r("time.Now", func(p *Path, _ *frame, fn *ssa.Function, _ []Value, _ ssa.CallInstruction) Value {
+		p.stubs["time.Now returns an arbitrary instant"] = true
+		p.nchoice++
+		ext := p.F.Var(fmt.Sprintf("c%d_now", p.nchoice), term.BV(64))
+		p.assume(p.F.BvUlt(ext, p.F.BVConst64(1<<62, 64)))
+		return &StructV{F: []Value{p.F.BVConst64(0, 64), ext, &Ptr{}}}
+	})
+
 	// ----- internal/bytealg (assembly on amd64): exact definitions over a case-split length -----
 	byteElems := func(p *Path, v Value, why string) []*term.T {
 		switch s := v.(type) {
